@@ -20,6 +20,11 @@ CHECKS["C02"] = ("exploration",
     "For every class/ovo flag, every shape n<=5(7) x K<=4(5), five logit scales from soft to saturated, the affinity menu, seed-generic logit tables and ALL tuples of perturbed interior-lattice rows (to sweep TV sign patterns and OT bases), the returned gradient is pushed through the softmax chain rule and compared with central differences of the returned score (steps h and h/8 must agree for the point to count as differentiable), and along every simplex tangent e_a-e_b; plus score equality with/without return_grad, gradient shape and exact zeros on clipped entries.",
     "Finite differences at two step sizes decide differentiability; kink points and MMD points whose distance is below floating-point resolution only get the finiteness/shape/clip checks. Values are seed-generic, structure is complete inside the bound.",
     "5/C02")
+CHECKS["C13"] = ("exploration",
+    "bounded-exhaustive enumeration of closed-simplex lattice matrices x all sample/cluster permutations x affinity menu on the real GEMINIs",
+    "All prediction matrices with rows in closed-simplex lattices (one-hot rows included) for small (K,n), under ALL sample permutations (with affinity rows/columns) and ALL cluster permutations, with an appended empty cluster, are scored by all 13 class/flag targets; invariance, zero gradient of the empty cluster, lower bounds, vanishing for sample-independent predictions, TV/Hellinger <= 1, MI(balanced partition)=log K and finiteness of scores and gradients are asserted on every one; gradient equivariance at seed-generic interior points under all permutation pairs.",
+    "Lattice denominators 2 and 4; gradient equivariance only where gradients are unique (generic points), compared in the simplex tangent space.",
+    "5/C13")
 NOT_APPLICABLE = {}
 
 def main():
